@@ -90,6 +90,12 @@ func (partyIDs IDSlice) WriteTo(w io.Writer) (int64, error) {
 	}
 	nAll := int64(4)
 	for _, id := range partyIDs {
+		// length-prefix every ID, so that {"a","bc"} and {"ab","c"} are written differently
+		err = binary.Write(w, binary.BigEndian, uint64(len(id)))
+		if err != nil {
+			return nAll, err
+		}
+		nAll += 8
 		n, err = w.Write([]byte(id))
 		nAll += int64(n)
 		if err != nil {
